@@ -24,7 +24,9 @@ func main() {
 	explain := flag.String("explain", "", "print a replay file")
 	goarch := flag.String("goarch", "", "GOARCH to load with (thorough tier adds 386)")
 	noEvidence := flag.Bool("no-evidence", false, "do not write evidence (used for scratch variants)")
-	dump := flag.String("dump", "", "debug: dump internal tables (slots)")
+	dump := flag.String("dump", "", "debug: dump internal tables (slots) or every obligation of -prop (obligations)")
+	selftest := flag.String("selftest", "", "analyse the fixture module in this directory and verify the engines' must-flag / must-pass expectations")
+	specDir := flag.String("spec", "", "directory of the reference tables (default: <dir of executable>/../spec)")
 	flag.Parse()
 	if *explain != "" {
 		b, err := os.ReadFile(*explain)
@@ -35,6 +37,22 @@ func main() {
 		var m map[string]any
 		_ = json.Unmarshal(b, &m)
 		fmt.Printf("property %v\nrule     %v\n         %v\nsite     %v\nkey      %v\nverdict  %v\n%v\n", m["property"], m["rule"], m["rule_statement"], m["pos"], m["key"], m["verdict"], m["detail"])
+		return
+	}
+	if *specDir != "" {
+		lint.SpecDir = *specDir
+	} else if exe, err := os.Executable(); err == nil {
+		lint.SpecDir = filepath.Join(filepath.Dir(filepath.Dir(exe)), "spec")
+	}
+	if *selftest != "" {
+		n, fails := lint.SelfTest(*selftest)
+		for _, f := range fails {
+			fmt.Println("SELFTEST-FAIL:", f)
+		}
+		fmt.Printf("selftest: %d fixture functions, %d failure(s)\n", n, len(fails))
+		if len(fails) > 0 {
+			os.Exit(2)
+		}
 		return
 	}
 	if *dump == "slots" {
@@ -83,6 +101,11 @@ func main() {
 			rep = r
 		} else {
 			rep.Merge(r, "GOARCH="+arch)
+		}
+	}
+	if *dump == "obligations" {
+		for _, o := range rep.Obls {
+			fmt.Printf("%-10s %s | %s | %s | %s\n", o.Verdict, o.Rule, o.Key, o.Pos, o.Detail)
 		}
 	}
 	evDir := *out
